@@ -89,6 +89,7 @@ ALPHABET = z3.Star(z3.Union(z3.Range("a", "z"), z3.Range("A", "Z"), z3.Range("0"
 
 
 _MODELLED = {}
+MAXLEN = 16          # longest declared prefix is 12 characters
 
 
 def modelled(cls):
@@ -109,6 +110,7 @@ def prefix_harness(cls, is_set, first):
         if ex.sym:
             o = modelled(cls)()
             ex.assume(z3.InRe(name.e, ALPHABET))
+            ex.assume(z3.Length(name.e) <= MAXLEN)
             # explicit traits never reach __prefix_trait__ (the C look-up finds them first)
             for n in o._class_traits():
                 ex.assume(name != n)
@@ -384,9 +386,9 @@ def obligations(tier, build):
         for first in ("_", "other"):
           obs.append(Obligation("prefix_trait/%s/%s/first=%s" % (cls.__name__, "set" if is_set else "get", first),
                               prefix_harness(cls, is_set, first), stubs=STUBS,
-                              bounds={"name": "any string over [A-Za-z0-9_], unbounded length",
+                              bounds={"name": "any string over [A-Za-z0-9_] of length <= %d" % MAXLEN,
                                       "class": cls.__name__, "prefix table": list(cls.__prefix_traits__["*"])},
-                              leverage="the attribute name (z3 strings)", max_paths=5000, query_timeout_ms=30000))
+                              leverage="the attribute name (z3 strings)", max_paths=5000, query_timeout_ms=60000, path_wall_s=180))
     K = 2 if tier == "quick" else 3
     for cname in CLASSES:
         obs.append(Obligation("policy/%s/k=%d" % (cname, K), policy_harness(cname, K), stubs=STUBS,
